@@ -773,8 +773,11 @@ func stAux(c *stCase) Verdict {
 			}
 		}
 		inv := stats.InvCDF(d)
-		for _, x := range []float64{-3, -1, -0.1, 0.5, 2} {
-			if got := inv(d.CDF(x)); math.IsNaN(got) || math.Abs(got-x) > 1e-6*math.Max(1, math.Abs(x)) {
+		// (1, 3, 7, 15, ... and their negatives are where the generic inverse probes while it brackets)
+		for _, x := range []float64{-3, -1, -0.1, 0.5, 2, 1, 3, 7, 15, 31, 63, -7, -15, -31, 0, 0.25, 4, 8, 16} {
+			// (far in the tails the distribution function is flat at float resolution: there the
+			// inverse is judged by the probability it reaches, not by x)
+			if got := inv(d.CDF(x)); math.IsNaN(got) || (math.Abs(got-x) > 1e-6*math.Max(1, math.Abs(x)) && math.Abs(d.CDF(got)-d.CDF(x)) > 1e-12) {
 				return aux("tdist-inverse", conc, "InvCDF(CDF(%v))=%v", x, got)
 			}
 		}
